@@ -127,3 +127,10 @@ P['C19']['jobs'] += [dict(name='handshake_bytes', tu='harness/w_conn.cpp', entry
 
 P['C19']['jobs'] += [dict(name='stream_bytes', tu='harness/w_hostile.cpp', entry='h_hostile_stream', engine='B', clock=True, defs_quick={'VK_BYTES': 5}, defs_thorough={'VK_BYTES': 8},
                           reach=['split', 'completed', 'well-formed-accepted', 'malformed'], samples=10)]
+
+P['C12'] = dict(
+    level_text='On the real mqtt_client under virtual time (stub timers fire in deadline order): configured keep-alive and Server Keep Alive are 16-bit symbols, the negotiated K ranges over 1..20 s (and 0). Checked: ping timer armed with exactly K s and read timeout with exactly 1.5 K s after CONNACK; first PINGREQ (alone in its write) no later than K after CONNACK, the next no later than K after the previous; a silent connection is given up exactly 1.5 K after the last byte arrived - after CONNACK or after a PINGRESP - and never earlier, followed by a reconnect; a reconnect with another Server Keep Alive re-arms both timers with the new value; with K = 0 nothing is armed and nothing happens.',
+    level_note='Bounds: K <= 20 s (symbolic), two ping cycles, one reconnect. Real time is replaced by the virtual clock of the stub timers; transport latency is zero. K > 20 only through the arithmetic (timer durations are compared symbolically with K).',
+    assumptions=_pub_assume[:2] + ['timers fire in deadline order (virtual clock); network events take no time'],
+    jobs=[dict(name='keepalive', tu='harness/w_ka.cpp', entry='h_keepalive', engine='B', clock=True, defs_quick={'VK_KMAX': 20}, defs_thorough={'VK_KMAX': 60},
+               reach=['no-keepalive', 'first-ping', 'timeout-reconnect', 'second-ping', 'timeout-after-traffic', 'new-keepalive'], samples=10)])
